@@ -642,7 +642,8 @@ def rule_divless(ctx, R):
             E = "ELEM<REV(Range::Range{K0,A})>"
 
             def skip(X, ARR):
-                return Seq(Star("LT[K0,%s]=1" % X, "EQ[K0,%s[%s]]=1" % (ARR, X), "SET%s((%s Sub K1))" % (X, X)), Alt(Seq("LT[K0,%s]=0" % X), Seq("LT[K0,%s]=1" % X, "EQ[K0,%s[%s]]=0" % (ARR, X))))
+                gt0, le0 = "LT[%s,K1]=0" % X, "LT[%s,K1]=1" % X  # x > 0 in the normal form  not (x < 1)
+                return Seq(Star(gt0, "EQ[K0,%s[%s]]=1" % (ARR, X), "SET%s((%s Sub K1))" % (X, X)), Alt(Seq(le0), Seq(gt0, "EQ[K0,%s[%s]]=0" % (ARR, X))))
 
             tail = Alt(
                 Seq("EQ[A,B]=0", "RET((A Lt B))"),
